@@ -10,7 +10,7 @@ from . import c10
 PROPERTY_FILES = ["C01_Routes"]
 KNOWN_PIDS = ["C01", "C02", "C10", "C17"]
 # classes of the fluent vocabulary (C10) that random programs mixing fluent constraints with routes also reach
-SHARED_CLASSES = ("or_not", "nested_ne", "aux_bounds", "mod_rejected", "empty_domain_panic", "lin_zero_coeffs")
+SHARED_CLASSES = ("nested_ne", "aux_bounds", "mod_rejected", "empty_domain_panic", "lin_zero_coeffs")
 
 TRUSTED_BASE = [
     "Coq 8.16.1 kernel (coqc full .vo build)",
